@@ -182,3 +182,59 @@ func VerifH_C19_ManyKeysNoDelay() {
 	verifrt.Quiesce()
 	verifrt.Assert(len(r.prefetch.queue) == 0 && up.calls == n, "every refresh ran once and cleared its mark")
 }
+
+// VerifH_C19_ConcurrentHits: "at most one background refresh per (question, client group) is in flight at any time,
+// no matter how many concurrent hits arrive". Two (thorough: three) hits for the same key race through the
+// single-flight gate with a pre-emption possible before every lock operation (≤ 2 deviations from round-robin), the
+// upstream gated shut so that a started refresh stays in flight: exactly one refresh reaches the upstream.
+// Then the refresh ends, the mark is cleared, and a later hit may start the next one — again exactly one.
+type vStartGate struct {
+	vGatedUpstream
+	started int
+}
+
+func (u *vStartGate) ExchangeContext(ctx context.Context, q []byte) (*dnsmsg.Msg, error) {
+	u.started++
+	return u.vGatedUpstream.ExchangeContext(ctx, q)
+}
+
+func VerifH_C19_ConcurrentHits() {
+	verifrt.Unwind(200)
+	verifrt.SchedBound(2)
+	verifrt.PreemptSync()
+	verifrt.CtxNoExpiry = true
+	up := &vStartGate{vGatedUpstream: vGatedUpstream{gate: make(chan struct{})}}
+	uw := &upstreamWrapper{tag: "up", u: up}
+	r := vRouter([]*rule{{upstream: uw}}, true)
+	n := 2
+	if verifrt.Thorough() {
+		n = 3
+	}
+	done := make(chan struct{}, n)
+	for i := 0; i < n; i++ {
+		go func() {
+			q := dnsmsg.NewQuestion()
+			q.Name = dnsmsg.Name([]byte{1, 'q'})
+			q.Type, q.Class = 1, 1
+			r.asyncSingleFlightPrefetch(q, netip.Addr{}, uw)
+			done <- struct{}{}
+		}()
+	}
+	for i := 0; i < n; i++ {
+		<-done
+	}
+	verifrt.Quiesce()
+	verifrt.Reach("hits-served")
+	verifrt.Assert(up.started == 1, "concurrent hits for one key start exactly one refresh")
+	verifrt.Assert(len(r.prefetch.queue) == 1, "which is marked in flight")
+	close(up.gate)
+	verifrt.Quiesce()
+	verifrt.Assert(len(r.prefetch.queue) == 0, "the mark is cleared when the refresh ends")
+	q := dnsmsg.NewQuestion()
+	q.Name = dnsmsg.Name([]byte{1, 'q'})
+	q.Type, q.Class = 1, 1
+	r.asyncSingleFlightPrefetch(q, netip.Addr{}, uw)
+	verifrt.Quiesce()
+	verifrt.Reach("next-refresh")
+	verifrt.Assert(up.started == 2 && len(r.prefetch.queue) == 0, "a later hit starts the next refresh, once")
+}
